@@ -17,12 +17,14 @@
 #if __cplusplus >= 201911L
 
 #  include <unifex/async_pass.hpp>
+#  include <unifex/detail/verif_hooks.hpp>
 
 namespace unifex::_pass {
 
 accept_op_base_noargs* async_pass_base::try_claim_acceptor() noexcept {
   auto s = state_.load(std::memory_order_acquire);
   while (is_acceptor(s)) {
+    UNIFEX_VERIF_POINT(321);
     if (state_.compare_exchange_weak(
             s, 0, std::memory_order_acq_rel, std::memory_order_acquire)) {
       return as_acceptor(s);
@@ -34,6 +36,7 @@ accept_op_base_noargs* async_pass_base::try_claim_acceptor() noexcept {
 uintptr_t async_pass_base::try_claim_caller_raw() noexcept {
   auto s = state_.load(std::memory_order_acquire);
   while (is_caller(s)) {
+    UNIFEX_VERIF_POINT(322);
     if (state_.compare_exchange_weak(
             s, 0, std::memory_order_acq_rel, std::memory_order_acquire)) {
       return s;
@@ -46,11 +49,13 @@ uintptr_t async_pass_base::call_or_suspend_raw(uintptr_t caller) noexcept {
   auto s = state_.load(std::memory_order_acquire);
   while (true) {
     if (is_acceptor(s)) {
+      UNIFEX_VERIF_POINT(323);
       if (state_.compare_exchange_weak(
               s, 0, std::memory_order_acq_rel, std::memory_order_acquire)) {
         return s;
       }
     } else if (s == 0) {
+      UNIFEX_VERIF_POINT(324);
       if (state_.compare_exchange_weak(
               s,
               caller,
@@ -68,11 +73,13 @@ uintptr_t async_pass_base::accept_or_suspend_raw(uintptr_t acceptor) noexcept {
   auto s = state_.load(std::memory_order_acquire);
   while (true) {
     if (is_caller(s)) {
+      UNIFEX_VERIF_POINT(325);
       if (state_.compare_exchange_weak(
               s, 0, std::memory_order_acq_rel, std::memory_order_acquire)) {
         return s;
       }
     } else if (s == 0) {
+      UNIFEX_VERIF_POINT(326);
       if (state_.compare_exchange_weak(
               s,
               acceptor,
